@@ -117,6 +117,27 @@ ContextInjections(m) ==
           THEN {[name |-> "math valid in a child: ci names no variable here", acc |-> {"MATH_CI_VARIABLE_REFERENCE"},
                  pre |-> SetM(TComp(IdxOfComp(m, "d1")), "math", m.comps[IdxOfComp(m, "c2")].math), mut |-> SetM(TVar(IdxOfComp(m, "d1"), 3), "name", "zz")]}
           ELSE {})
+\* resolved imports: a library model is attached to the import source (what Importer::resolveImports / ImportSource::setModel do).
+\* The validator then follows the import: the target is looked up in the library (a component anywhere in its encapsulation
+\* hierarchy), validated there, and a chain of imports is followed in turn.  "acc = {}" : the model stays valid.
+AttachM(t, kind) == [op |-> "attachLib", t |-> t, val |-> kind]
+ImportedUnits(m) == {i \in DOMAIN m.units : m.units[i].imp # NoneS}
+ResolvedInjections(m) ==
+    UNION {
+        {Inj("resolved import: component " \o k, {}, AttachM(TImport(i), k)) : k \in {"top", "nested", "deep", "chain"}}
+        \cup {Inj("resolved import: component missing", {"IMPORT_COMPONENT_COMPONENT_REFERENCE_TARGET"}, AttachM(TImport(i), "missing")),
+              Inj("resolved import: component missing at the second level", {"IMPORT_COMPONENT_COMPONENT_REFERENCE_TARGET"}, AttachM(TImport(i), "chainMissing")),
+              Inj("resolved import: component invalid inside", {"VARIABLE_UNITS_VALUE", "VARIABLE_ATTRIBUTE_REQUIRED"}, AttachM(TImport(i), "invalidInside")),
+              Inj("resolved import: nested component invalid inside", {"VARIABLE_UNITS_VALUE", "VARIABLE_ATTRIBUTE_REQUIRED"}, AttachM(TImport(i), "nestedInvalidInside")),
+              Inj("resolved import: component import cycle", {"IMPORT_COMPONENT_COMPONENT_REFERENCE"}, AttachM(TImport(i), "cycle"))}
+        : i \in Imported(m)}
+    \cup UNION {
+        {Inj("resolved import: units " \o k, {}, AttachM(TImportU(i), k)) : k \in {"top", "viaLocal", "chain"}}
+        \cup {Inj("resolved import: units missing", {"IMPORT_UNITS_UNITS_REFERENCE_VALUE_TARGET"}, AttachM(TImportU(i), "missing")),
+              Inj("resolved import: units missing at the second level", {"IMPORT_UNITS_UNITS_REFERENCE_VALUE_TARGET"}, AttachM(TImportU(i), "chainMissing")),
+              Inj("resolved import: units invalid inside", {"UNIT_UNITS_REFERENCE"}, AttachM(TImportU(i), "invalidInside")),
+              Inj("resolved import: units import cycle", {"IMPORT_UNITS_UNITS_REFERENCE"}, AttachM(TImportU(i), "cycle"))}
+        : i \in ImportedUnits(m)}
 \* duplicated ids: the id of one item copied onto an item of another kind (models generated with ids everywhere)
 DuplicateIdInjections(m) ==
     IF m.id = NoneS THEN {} ELSE
